@@ -32,6 +32,9 @@ NEW_OBJECT_FNS = {  # "existing" returns an object that already exists: not a ne
     "inc", "double", "neg", "const", "suffix", "append_copy", "empty", "with_first", "wrong", "to_missing"}
 
 
+PROFILE = dict(grammar.PROFILES["data_dnc"], subclass_dnc=True)
+
+
 def _sanitize(op):
     """Replace identity transforms (which hand the receiver's own object back) by new-object transforms."""
     def fix(a):
@@ -55,9 +58,19 @@ def _has_identity_fn(op):
 
 @__import__("hypothesis").strategies.composite
 def case_strategy(draw):
-    case = draw(world_history("data_dnc", max_ops=8, probe=_probe, bad_rate=(1, 10)))
     src = grammar.HypSource(draw)
-    info = grammar.world_info(case["world"])
+    wd = grammar.gen_world(src, PROFILE)
+    touch = []
+    r = next((c for c in wd["classes"] if c["name"] == "R"), None)
+    if r is not None and isinstance(r["opts"].get("do_not_copy"), list):
+        # a spec subclass that adds an attribute it merely inherits to do_not_copy: the instances under test are its PARENT's
+        # (what the subclass declares is the subclass's business), created after the subclass has been bootstrapped
+        wd["instance_class"] = "M"
+        touch = ["R"]
+    info = grammar.world_info(wd)
+    case = {"world": wd, "ops": ops.gen_history(src, info, max_ops=8, bad_rate=(1, 10)), "probe": _probe(src, info)}
+    if touch:
+        case["touch"] = touch
     n = src.choice(7)
     case["follow"] = [ops.gen_op(src, info, inplace=True, bad_rate=(1, 10), allow=("scalar", "element", "top", "nested")) for _ in range(n)]
     case["side"] = src.pick(["result", "receiver"])
@@ -76,6 +89,8 @@ def dnc_attrs(world, cname):
 
 def run_case(ctx, case):
     world = grammar.build_world(case["world"])
+    for name in case.get("touch", ()):
+        world.classes[name].__spec_class__  # (bootstraps a lazily decorated class)
     probe = case["probe"]
     if probe["t"] == "call" and _has_identity_fn(probe):
         ctx.count("skipped_identity_transform")
